@@ -663,8 +663,14 @@ func genPipeCase(r *vlib.R, emit func(string)) int {
 	polS := genPolicy(r, r.Chance(5, 6))
 	spec := specFrom(strings.Fields(polS), false)
 	capS := vlib.Pick(r, []int{0, 120, 300, 3600, 100000})
-	pf := vlib.Pick(r, []int{0, 50, 90})
-	emit(fmt.Sprintf("pipe new %s %d %d", polS, capS, pf))
+	pf := vlib.Pick(r, []int{0, 50, 90, 50, 90, 10, 5, 95})
+	// cache sizing: omitted (0) / too small values and prefetch > 90 send cache.New
+	// down its "validation failed, using defaults" branch
+	csize := vlib.Pick(r, []int{1024, 1024, 4096, 0, 512, 1023})
+	emit(fmt.Sprintf("pipe new %s %d %d %d", polS, capS, pf, csize))
+	if pf > 90 {
+		pf = 0
+	}
 	count := 1
 
 	// five client locations around one boundary of one family: the same
